@@ -315,6 +315,29 @@ def directory_protocol(chk, prog, cfg):
     if tfp:
         bad = tfp.calls_to(r"::(rev|last|rfind|max|min|sort|sort_unstable|skip|nth)$")
         chk.ob("R4.index_files", tfp.path, "index files are tried in the given order", not bad, f"order-changing call {[t['callee'] for _, t in bad]}", cfg=cfg)
+        # a missing / unreadable index file does not end the search: inside the loop over the index files the only way out of the function
+        # is returning the file that was found (`metadata(..).ok()?` in the loop body would answer 404 before index.htm is tried)
+        for nb, nt in tfp.calls_to(r"Iterator>?::next$"):
+            recv = describe(prog, tfp, nt["args"][0])
+            if not desc_contains(recv, lambda y: y[0] == "param" and y[2] == "index_files"):
+                continue
+            from .c01 import some_edge_of
+            for (sb_, tgt_) in some_edge_of(prog, tfp, nb, "Some"):
+                body_blocks = tfp.reachable([tgt_], removed_nodes={nb})
+                exits = []
+                for x in sorted(body_blocks):
+                    for s_ in tfp.blocks[x]["stmts"]:
+                        if "pl" in s_ and s_["pl"]["l"] == 0 and not s_["pl"]["p"]:
+                            rv_ = s_["rv"]
+                            exits.append((x, "Some" if rv_.get("k") == "agg" and rv_.get("variant") == "Some" else "other"))
+                    t_ = tfp.term(x)
+                    if t_ and t_["k"] == "call" and t_.get("dest") and t_["dest"]["l"] == 0 and not t_["dest"]["p"]:
+                        exits.append((x, "other"))
+                # exits that belong to the code after the loop are reached through the loop head only; those were cut off above
+                early = [x for x, k_ in exits if k_ != "Some"]
+                chk.ob("R4.index_files", tfp.path, "a missing index file does not end the search (the loop is left early only with the file found)", not early,
+                       f"the loop over the index files can return without a file at {[tfp.where(x) for x in early][:3]}: index.htm is never tried when index.html is absent",
+                       where=tfp.where(nb), cfg=cfg)
         # only regular files are returned as File: is_file() true edge dominates LocatedPath::File construction
         n_file = 0
         for h in [tfp] + [prog.bodies[c] for c in prog.closures_of(tfp.path) if c in prog.bodies]:
